@@ -286,7 +286,7 @@ def _w_bits(res, p):
         s.set("timeout", 60000)
         s.add(neg)
         t = time.time()
-        rr = str(s.check())
+        rr = str(ST.bounded_check(s, 20000))
         res.d["solver_s"] += time.time() - t
         res.d["solver_queries"] += 1
         res.ob(1)
@@ -303,7 +303,7 @@ def _w_bits(res, p):
     wrong = (t2 | (((t2 & -t2) // (BVInt(v) & -BVInt(v))) >> 1)).z
     s = z3.Solver()
     s.add(dom, _popcount(wrong, W) != pv)
-    if str(s.check()) == "sat":
+    if str(ST.bounded_check(s, 20000)) == "sat":
         res.d["vacuity_ok"] += 1
     else:
         res.herr("vacuity twin of the bit trick not refuted")
